@@ -414,6 +414,44 @@ def trace_validate(chk, module, cfg, trace_path, n_rows, timeout=3000, xmx="6g",
     return res[0][2]
 
 
+def trace_validate_parallel(chk, module, cfg, rows, parts=8, timeout=3000, xmx="3g", env=None):
+    """Split the rows over `parts` concurrent TLC runs (one worker each); bad entries get global 1-based lines."""
+    import concurrent.futures
+    n = len(rows)
+    parts = max(1, min(parts, (n + 49) // 50))
+    size = (n + parts - 1) // parts
+    jobs = []
+    for k in range(parts):
+        chunk = rows[k * size:(k + 1) * size]
+        if not chunk:
+            continue
+        wd = os.path.join(chk.work, "part%d" % k)
+        os.makedirs(wd, exist_ok=True)
+        tp = os.path.join(wd, "trace.ndjson")
+        write_ndjson(tp, chunk)
+        jobs.append((k * size, wd, tp, len(chunk)))
+
+    def one(job):
+        off, wd, tp, cnt = job
+        result = []
+        e = {"TRACE": tp}
+        if env:
+            e.update(env)
+        r = tlc(module, cfg, wd, consts_env=e, workers=1, on_json=lambda v: result.append(v), timeout=timeout, xmx=xmx)
+        tlc_must_pass(r, module)
+        res = [v for v in result if v and v[0] == "RESULT"]
+        if not res or res[0][1] != cnt:
+            raise ToolError("%s consumed %s of %d lines" % (module, res[0][1] if res else None, cnt))
+        return r, [[b[0] + off, b[1]] for b in res[0][2]]
+
+    bad = []
+    with concurrent.futures.ThreadPoolExecutor(max_workers=len(jobs)) as ex:
+        for r, b in ex.map(one, jobs):
+            chk.add_tlc(r)
+            bad += b
+    return bad
+
+
 def canary_replay(chk, cmd, case, what):
     can = os.path.join(chk.work, "canary_case.ndjson")
     with open(can, "w", encoding="utf8") as f:
